@@ -112,6 +112,16 @@ def check(ck):
             ck.require(okk, "C20.2", "%s: recursive `%s` forwards %s" % (where, dump(c)[:40], name), "own normalised %s" % name,
                        "a nested value is dumped with %s as `%s`: the caller's customisation is not honoured below this level"
                        % (prov.show(t) if t else "the default", name), q.loc(fd, n))
+    # the ignore argument is only read: extending it in place (`ignore += ...`, `.extend`, through an alias too) changes what the
+    # recursive calls of this very dump - and the caller's later dumps - leave out
+    from rules import common as _cm20
+    for (n, desc, recv) in _cm20.mutations(fd):
+        t = prov.origin(g, n, recv)
+        if any(prov.contains(a_, lambda x: x == ("param", "ignore")) and a_[0] in ("param", "or") for a_ in prov.value_alts(t)) or \
+                any(a_ == ("param", "ignore") for a_ in prov.value_alts(t)):
+            ck.bad("C20.2", "%s: %s" % (where, desc), "the list given as `ignore` (or its normalised form, which is the same object) is modified in "
+                   "place: names of one object's own ignore list leak into the dumps of nested and later objects, whose fields of that name "
+                   "are then dropped", q.loc(fd, n))
     ck.floor("C20.2", 12)
 
     # ---- C20.3 ignore filtering ----------------------------------------------------------------------------
